@@ -9,11 +9,17 @@ Leg M   : TLC on Mechanic.tla (MechanicActor / Dispatcher / NodeMechanicActor ha
           and the liveness properties in the model.
 Leg S2C : TLC -simulate behaviours and the counterexamples of the pinned variants ("trap" schedules) are replayed into the REAL
           MechanicActor / Dispatcher / NodeMechanicActor / Mechanic under SimActorSystem (harness/mechsim.py).
+Leg S2C': the stop-outcome family (not derived from TLC, exhaustive over its alphabet): one host with 1..3 nodes, every vector of
+          per-node stop outcomes over {dies on SIGTERM, already gone at look-up, gone at terminate(), survives SIGTERM and dies on
+          SIGKILL, survives SIGTERM and is gone when SIGKILL is sent}, stopped by StopNodes (race known / unknown, preserve on / off)
+          or by the ActorExitRequest at teardown after a start failure on another entry: the REAL ProcessLauncher.stop /
+          Mechanic.stop_engine / NodeMechanicActor run over the scripted fake psutil (waits are virtual: wait() answers at once).
 Leg C2S : every recorded execution (also seeded random schedules over random target-host lists, not derived from TLC) is
           validated by TLC against TraceMechanic.tla: L1 = the property formulas on the recorded state, L2 = every recorded step
           is the corresponding action of Mechanic.tla.
 """
 import glob
+import itertools
 import os
 import random
 import re
@@ -22,7 +28,9 @@ from .. import mechtrace, tlc, tracecheck
 from ..core import Outcome, Violation
 from ..tlaparse import parse_simulation_file, parse_state, to_json
 
-L1_CLAUSES = {"StartedOnlyWhenAll", "StopAtMostOnce", "StoppedOnlyWhenAll", "ExternalUntouched", "NoStall", "FaultReported", "TeardownStopsAll", "ExternalAnswered", "ShutdownMetricsStored"}
+L1_CLAUSES = {"StartedOnlyWhenAll", "StopAtMostOnce", "StoppedOnlyWhenAll", "ExternalUntouched", "NoStall", "FaultReported", "TeardownStopsAll", "ExternalAnswered", "ShutdownMetricsStored", "AckedOnlyWhenDone", "StopNeverRaises", "StopHandlesAll"}
+PROC_CONDS = ("early", "late", "stubborn", "vanish")
+STOP_OUTCOMES = ("alive",) + PROC_CONDS
 # actions of Mechanic.tla that must be reachable in the model (NRecvFailure and the assertion branches are not: they need
 # duplicated or out-of-state acknowledgements, which the modelled environment never produces)
 REQUIRED_ACTIONS = ["MRecvStartEngine", "MRecvReset", "MWakeup", "MRecvFailureD", "MRecvStopEngine", "MRecvExit", "DRecvStartEngine", "DRecvConv", "DRecvExit", "RcStop", "RcReset", "RcTeardown", "RemoteJoins", "RemoteLeaves"]  # NodeProcess is an \\E-disjunct of Next, covered by unreached_disjuncts
@@ -157,6 +165,33 @@ def random_history(rnd):
     return hist, up
 
 
+def stop_family(quick):
+    """Every vector of per-node stop outcomes for one host with 1..3 nodes. -> [(outcomes, how, job fields)]
+    how = 'stop'  : the engine is started and then stopped by StopEngine -> StopNodes (race known / unknown alternating);
+    how = 'exit'  : a second entry on the same host fails to launch, race control tears down, the node actor gets the
+                    ActorExitRequest while its nodes run (Mechanic.stop_engine from the exit branch)."""
+    L1, L2 = {"ip": 0, "port": 1}, {"ip": 0, "port": 2}
+    fam = []
+    i = 0
+    for k in (1, 2, 3):
+        for outcomes in itertools.product(STOP_OUTCOMES, repeat=k):
+            procs = [("NodeProcess", n, c) for n, c in enumerate(outcomes) if c != "alive"]
+            variants = [("stop", False), ("exit", False)]
+            if k <= 2 or not quick:
+                variants.append(("stop", True))
+            for how, preserve in variants:
+                i += 1
+                if how == "stop":
+                    scn = {"targets": [dict(L1) for _ in range(k)], "ext": False, "preserve": preserve}
+                    script = [("MRecvStartEngine", 0, ""), ("DRecvStartEngine", 0, ""), ("NRecvStartNodes", 1, "ok"), ("MRecvNodesStarted", 1, "")]
+                    script += procs + [("RcStop", 0, ""), ("MRecvStopEngine", 0, ""), ("NRecvStopNodes", 1, "known" if i % 2 else "unknown")]
+                else:
+                    scn = {"targets": [dict(L1) for _ in range(k)] + [dict(L2)], "ext": False, "preserve": preserve}
+                    script = [("MRecvStartEngine", 0, ""), ("DRecvStartEngine", 0, ""), ("NRecvStartNodes", 1, "ok")] + procs + [("NRecvStartNodes", 2, "launch")]
+                fam.append({"outcomes": list(outcomes), "how": how, "hist": [scn], "up": [], "script": script})
+    return fam
+
+
 def signature_of(clauses, st, hist):
     procs = sorted({x["proc"] for x in st["nd"] if x["proc"] != "alive"})
     cyc = st["env"]["cyc"]
@@ -168,7 +203,7 @@ def run_traces(ctx, out, jobs, label, chunk=80):
     """jobs: dict(hist, up, script, seed, fault_prob[, strict]). Runs the real actors, validates with TLC."""
     traces = []
     index = {}
-    stats = {"followed": 0, "skipped": 0, "livelock": 0, "fault": {"none": 0, "create": 0, "launch": 0, "leave": 0}, "ext": 0, "preserve": 0, "events": 0, "answered_started": 0, "answered_failed": 0, "stopped": 0, "proc": {"early": 0, "late": 0, "stubborn": 0}, "proc_stopped": {"early": 0, "late": 0, "stubborn": 0}, "lifecycles": {1: 0, 2: 0, 3: 0}, "reuse": {}, "race": {"known": 0, "unknown": 0}}
+    stats = {"followed": 0, "skipped": 0, "livelock": 0, "fault": {"none": 0, "create": 0, "launch": 0, "leave": 0}, "ext": 0, "preserve": 0, "events": 0, "answered_started": 0, "answered_failed": 0, "stopped": 0, "proc": {c: 0 for c in PROC_CONDS}, "proc_stopped": {c: 0 for c in PROC_CONDS}, "lifecycles": {1: 0, 2: 0, 3: 0}, "reuse": {}, "race": {"known": 0, "unknown": 0}}
     for n, job in enumerate(jobs):
         tid = "%s-%d" % (label, n)
         hist = job["hist"]
@@ -262,10 +297,11 @@ def _merge(total, st):
 def run(ctx, out):
     out.rule = (
         "case = (history of 1-3 engine lifecycles on one MechanicActor, each a target-host list with external/preserve flags; remote daemons initially present; sequence of scheduling decisions: "
-        "message deliveries incl. the outcome of each host's start, wake-ups, race-control actions, daemons joining/leaving, node processes dying / ignoring SIGTERM) executed on "
+        "message deliveries incl. the outcome of each host's start, wake-ups, race-control actions, daemons joining/leaving, node processes dying / ignoring SIGTERM / vanishing before SIGKILL) executed on "
         "the real actors; distinct by hash of scenario+decision sequence; non-trivial = more than 8 decisions. Sources: TLC -simulate "
         "behaviours of Mechanic.tla, TLC counterexamples of the pinned model variant (trap schedules), seeded random schedules over "
-        "random target lists."
+        "random target lists, and the exhaustive stop-outcome family (one host with 1..3 nodes x every vector of per-node stop outcomes "
+        "x stopped by StopNodes or by the exit request at teardown)."
     )
     out.assumptions = [
         "Thespian semantics as reproduced by harness/simactor.py: FIFO per (sender, receiver) pair, handlers run to completion, a handler "
@@ -278,7 +314,8 @@ def run(ctx, out):
         "before the join was processed depend on thespian internals that SimActorSystem does not reproduce",
         "supplier / provisioner / race store are recording stubs; the launcher is the real ProcessLauncher with only _start_node replaced "
         "(real cluster.Node, real telemetry.Telemetry with one recording device): the real ProcessLauncher.stop runs against a fake psutil "
-        "whose process table the environment controls (alive, already gone, dying while terminated, ignoring SIGTERM); "
+        "whose process table the environment controls (alive, already gone, dying while terminated, ignoring SIGTERM and dying on SIGKILL, "
+        "ignoring SIGTERM and gone when SIGKILL is sent; wait() answers at once, no real grace period); "
         "the race store is a recording fake that answers NotFound where the environment says the host's race store does not know the "
         "race (always on remote hosts, sometimes on the coordinator's host), as the file race store does; "
         "provisioner.cleanup, Mechanic and metrics.calculate_system_results are real; the system metrics store is the real in-memory "
@@ -326,7 +363,34 @@ def run(ctx, out):
         rjobs.append({"hist": hist, "up": up, "script": [], "seed": ctx.seed + 5000 + i, "fault_prob": [0.0, 0.03, 0.12][i % 3] if len(hist) > 1 else [0.0, 0.1, 0.3][i % 3], "proc_prob": [0.0, 0.15, 0.3, 0.15][i % 4]})
     rstats, rindex = run_traces(ctx, out, rjobs, "rnd")
     _merge(total, rstats)
-    out.extra["runs"] = len(jobs) + len(rjobs)
+    # ---- the stop-outcome family: every vector of per-node outcomes of ProcessLauncher.stop for 1..3 nodes on one host
+    fam = stop_family(ctx.quick)
+    fjobs = [{"hist": f["hist"], "up": f["up"], "script": f["script"], "seed": ctx.seed + 9000 + i, "fault_prob": 0.0, "proc_prob": 0.0} for i, f in enumerate(fam)]
+    fstats, findex = run_traces(ctx, out, fjobs, "fam")
+    _merge(total, fstats)
+    cover = {"%s@%d/%d" % (c, p, k): 0 for k in (1, 2, 3) for p in range(k) for c in STOP_OUTCOMES}
+    by_how = {"stop": 0, "exit": 0}
+    for i, f in enumerate(fam):
+        last = findex["fam-%d" % i][1]["events"][-1]["st"]["nd"]
+        k = len(f["outcomes"])
+        for p, c in enumerate(f["outcomes"]):
+            # counted when the node was handled by a stop while its process was in the scripted condition
+            if last[p]["stops"] > 0 and last[p]["proc"] == c:
+                cover["%s@%d/%d" % (c, p, k)] += 1
+        by_how[f["how"]] += 1
+    out.extra["stop_family"] = {
+        "runs": len(fam),
+        "by_request": by_how,
+        "script_steps_not_enabled": fstats["skipped"],
+        "outcome@position/nodes -> runs in which that node was handled by a stop": cover,
+    }
+    for key, cnt in sorted(cover.items()):
+        if cnt == 0:
+            out.vacuous.append("stop family:" + key)
+    out.note("leg S2C' stop-outcome family: %d runs (%s), %d outcome/position cells, all covered: %s" % (len(fam), by_how, len(cover), all(cover.values())))
+    some = findex["fam-%d" % (len(fam) - 1)]
+    out.sample({"history": some[0]["hist"], "up": some[0]["up"], "decisions": [(e["ev"], e["a"], e["b"]) for e in some[1]["events"]][:40]})
+    out.extra["runs"] = len(jobs) + len(rjobs) + len(fjobs)
     out.extra["schedule_steps_followed"] = total["followed"]
     out.extra["schedule_steps_not_enabled"] = total["skipped"]
     out.extra["runs_by_fault"] = total["fault"]
@@ -346,7 +410,7 @@ def run(ctx, out):
             out.vacuous.append("reuse:" + key)
     out.extra["node_processes_not_alive"] = total["proc"]
     out.extra["node_processes_not_alive_and_stopped"] = total["proc_stopped"]
-    for kind in ("early", "late", "stubborn"):
+    for kind in PROC_CONDS:
         if total["proc_stopped"].get(kind, 0) == 0:
             out.vacuous.append("process:" + kind)
     for kind in ("create", "launch", "leave"):
@@ -360,7 +424,7 @@ def run(ctx, out):
     out.sample({"history": some[0]["hist"], "up": some[0]["up"], "decisions": [(e["ev"], e["a"], e["b"]) for e in some[1]["events"]][:40]})
     out.note(
         "leg C2S: %d runs, %d events, %d traces accepted by TLC, %d schedule steps followed, %d not enabled; faults %s; node processes not alive when stopped %s; reuse %s"
-        % (len(jobs) + len(rjobs), total["events"], out.traces_validated, total["followed"], total["skipped"], total["fault"], total["proc_stopped"], total["reuse"])
+        % (len(jobs) + len(rjobs) + len(fjobs), total["events"], out.traces_validated, total["followed"], total["skipped"], total["fault"], total["proc_stopped"], total["reuse"])
     )
 
 
